@@ -503,6 +503,9 @@ var c23Probes = []c23Probe{
 		c23P("a", "k2", "d6", func(o *c23Op) { o.Score = 9 }), {Kind: "rem", Ch: "a", Key: "k3"},
 		{Kind: "state", Ch: "a", Limit: 2}, {Kind: "state", Ch: "a", Limit: -1, Asc: true}, {Kind: "stats", Ch: "a"},
 		{Kind: "state", Ch: "a", Limit: -1, Key: "k1"}, {Kind: "state", Ch: "a", Limit: 0}, {Kind: "stream", Ch: "a", Limit: -1}}},
+	{name: "cas-empty-epoch", cfg: c23Persistent, ops: []c23Op{
+		c23P("a", "k1", "d1", nil), c23P("a", "k1", "d2", func(o *c23Op) { o.Pos = true; o.POff = 7 }),
+		{Kind: "state", Ch: "a", Limit: -1}}},
 	{name: "state-limit0-revision", cfg: c23Persistent, ops: []c23Op{
 		c23P("a", "k1", "d1", nil), {Kind: "state", Ch: "a", Limit: 0, Pos: true, POff: 1, PEpoch: "bogus"}}},
 }
@@ -656,6 +659,9 @@ func c23Tags(cfg c23Cfg, ops []c23Op, mem []c23Res, red []c23Res) string {
 		}
 		if strings.ContainsAny(op.Ch, ":.") {
 			t["map-key-collision"] = true
+		}
+		if (op.Kind == "pub" || op.Kind == "rem") && op.Pos && op.PEpoch == "" && op.Key != "" && cfg.Mode != 1 {
+			t["map-cas-empty-epoch"] = true
 		}
 		switch op.Kind {
 		case "pub":
